@@ -4,7 +4,7 @@ set -u
 name="$1"; shift
 cd /verif
 if ! git -C /repo diff --quiet; then echo "/repo has uncommitted changes"; exit 2; fi
-git -C /repo apply --3way "/verif/seeded/$name/patch.diff" 2>/dev/null || git -C /repo apply "/verif/seeded/$name/patch.diff" || { echo "patch does not apply"; git -C /repo checkout -- .; exit 2; }
+P=/verif/seeded/$name/patch.diff; [ -f /verif/seeded/$name/patch_current.diff ] && P=/verif/seeded/$name/patch_current.diff; git -C /repo apply "$P" 2>/dev/null || git -C /repo apply --3way "$P" 2>/dev/null || { echo "patch does not apply"; git -C /repo reset -q --hard HEAD; exit 2; }
 for id in "$@"; do
   echo "=== seed $name vs $id"
   ./run.sh "$id" quick 2>&1 | grep -E "^(VIOLATION|KNOWN|C[0-9]+ |INCONCL|BUILD)" | cut -c1-400 | head -8
